@@ -4,6 +4,7 @@ CONSTANTS
   Runtimes = {"threaded", "tokio"}
   MaxReq = 1
   Kinds = {"close", "keep", "ws"}
+  SigTwice = FALSE
   Dev = {}
 SPECIFICATION SpecAllFair
 INVARIANTS TypeOK
